@@ -721,6 +721,10 @@ def run(replay=None):
                          'ServiceCache explains it (earlier events: %s)' % (
                              t['id'], t['network'], t['witness_type'], v['at'], t['desc'][i] if i < len(t['desc']) else '?',
                              json.dumps(t['events'][i]), '; '.join(t['desc'][:i])), {'history': list(job)})
+    if not replay:
+        # specification growth beyond the listed property: answers kept for a limited time, with a virtual clock (TimedCache.tla)
+        from harness import timedcache
+        timedcache.run_section(ck, thorough)
     if traces:
         ck.sample({'cache_history': traces[0]['desc'], 'events': traces[0]['events'][:3]})
     ck.notes['cache_histories'] = len(traces)
